@@ -88,6 +88,31 @@ const (
 	vAKICustom
 )
 
+func vPoisonExt(kind int) (pkix.Extension, bool) {
+	e := pkix.Extension{Id: vOIDPoison, Critical: true}
+	switch kind {
+	case vPoisonOK:
+		e.Value = []byte{5, 0}
+	case vPoisonNonCritical:
+		e.Critical, e.Value = false, []byte{5, 0}
+	case vPoisonBadValue:
+		e.Value = []byte{5, 1, 0}
+	case vPoisonNonCriticalBad:
+		e.Critical, e.Value = false, []byte{4, 0}
+	case vPoisonEmpty:
+		e.Value = []byte{}
+	case vPoisonLenContent:
+		e.Value = []byte{5, 3, 0xde, 0xad, 0x42}
+	case vPoisonConstructed:
+		e.Value = []byte{0x25, 0}
+	case vPoisonLongLen:
+		e.Value = []byte{5, 0x81, 0}
+	default:
+		return e, false
+	}
+	return e, true
+}
+
 // vSpec describes one certificate to issue.
 type vSpec struct {
 	cn        string
@@ -106,6 +131,7 @@ type vSpec struct {
 	akiMode   int
 	aki       []byte
 	poison    int
+	poison2   int // a second extension with the poison OID (the fork's parser does not refuse duplicates)
 	customExt bool
 }
 
@@ -145,23 +171,10 @@ func vIssue(s vSpec) *vCert {
 	if s.ctEKU {
 		tmpl.UnknownExtKeyUsage = append(tmpl.UnknownExtKeyUsage, vOIDCTEKU)
 	}
-	switch s.poison {
-	case vPoisonOK:
-		tmpl.ExtraExtensions = append(tmpl.ExtraExtensions, pkix.Extension{Id: vOIDPoison, Critical: true, Value: []byte{5, 0}})
-	case vPoisonNonCritical:
-		tmpl.ExtraExtensions = append(tmpl.ExtraExtensions, pkix.Extension{Id: vOIDPoison, Critical: false, Value: []byte{5, 0}})
-	case vPoisonBadValue:
-		tmpl.ExtraExtensions = append(tmpl.ExtraExtensions, pkix.Extension{Id: vOIDPoison, Critical: true, Value: []byte{5, 1, 0}})
-	case vPoisonNonCriticalBad:
-		tmpl.ExtraExtensions = append(tmpl.ExtraExtensions, pkix.Extension{Id: vOIDPoison, Critical: false, Value: []byte{4, 0}})
-	case vPoisonEmpty:
-		tmpl.ExtraExtensions = append(tmpl.ExtraExtensions, pkix.Extension{Id: vOIDPoison, Critical: true, Value: []byte{}})
-	case vPoisonLenContent:
-		tmpl.ExtraExtensions = append(tmpl.ExtraExtensions, pkix.Extension{Id: vOIDPoison, Critical: true, Value: []byte{5, 3, 0xde, 0xad, 0x42}})
-	case vPoisonConstructed:
-		tmpl.ExtraExtensions = append(tmpl.ExtraExtensions, pkix.Extension{Id: vOIDPoison, Critical: true, Value: []byte{0x25, 0}})
-	case vPoisonLongLen:
-		tmpl.ExtraExtensions = append(tmpl.ExtraExtensions, pkix.Extension{Id: vOIDPoison, Critical: true, Value: []byte{5, 0x81, 0}})
+	for _, pz := range []int{s.poison, s.poison2} {
+		if ext, ok := vPoisonExt(pz); ok {
+			tmpl.ExtraExtensions = append(tmpl.ExtraExtensions, ext)
+		}
 	}
 	if s.customExt {
 		tmpl.ExtraExtensions = append(tmpl.ExtraExtensions, pkix.Extension{Id: vOIDCustom, Critical: false, Value: []byte{4, 1, 7}})
